@@ -289,7 +289,7 @@ func (*hdec) Run(rc *core.RunCtx) *core.RunResult {
 	}
 	planNames := []string{"", "transient EIO", "persistent EIO", "early EOF", "cancel"}
 	planKinds := []string{"", "abort_eio_transient", "abort_eio_persistent", "abort_eof", "abort_cancel"}
-	family := t.Intn(12)
+	family := []int{0, 0, 1, 1, 2, 3, 4, 5, 6, 7, 8, 9}[t.Intn(12)] // saturation 4/12, truncation 2/12, aborts 2/12, single faults 4/12
 	satByte := boundaryBytes[t.Intn(len(boundaryBytes))]
 	if rc.Tier == "thorough" {
 		// thorough: the families and boundary values rotate with the round, so that a pair
